@@ -68,7 +68,7 @@ def tables(root, spec, probes):
     for p in probes:
         pl.append(dict(p, **CTX1))
         pl.append(dict(p, **CTX2))
-    return run_impl(IMPL, {'root': root, 'spec': spec, 'fmts': [B.format_string(s) for s in spec['sources']],
+    return run_impl(IMPL, {'root': B.budget_root(spec, root), 'spec': spec, 'fmts': [B.format_string(s) for s in spec['sources']],
                            'delims': [B.setting_delimiter(s) for s in spec['sources']], 'probes': pl, 'single_rule_texts': single_rule_texts(spec)}, timeout=120)
 
 
@@ -560,6 +560,23 @@ def corpus():
     second['name'], second['file'] = 'Bank', 'data/bank.csv'
     b_two['sources'].append(second)
     b_two['ask_all'] = True
+    # descriptions with inner whitespace runs / a tab, and patterns that span the run: `up` strips only the ends of the cell
+    def rl(name, match, cat, sub):
+        return {'name': name, 'match': match, 'category': cat, 'subcategory': sub, 'merchant': '', 'tags': [], 'let': [], 'field': [],
+                'priority': None}
+    b_ws = bud([])
+    b_ws['rules']['rules'] = [rl('Amazon Payments', 'contains("PMTS  AMZN")', 'Shopping', 'Payments'),
+                              rl('Wire Out', 'regex("WIRE\\\\s{3}OUT")', 'Banking', 'Wire'),
+                              rl('Tabbed', 'contains("ACH\\tDEBIT")', 'Banking', 'Ach'),
+                              rl('Single', 'regex("^PMTS AMZN")', 'Shopping', 'Single'),
+                              rl('Amazon', 'contains("AMZN")', 'Shopping', 'Online'), rl('Wire', 'contains("WIRE")', 'Banking', 'Other'),
+                              rl('Ach', 'contains("ACH")', 'Banking', 'Other Ach')]
+    b_ws['sources'][0]['rows'] += [row('2025-05-01', 'PMTS  AMZN 12', 100), row('2025-05-02', 'PMTS AMZN 12', 100),
+                                   row('2025-05-03', 'UNKNOWN  TWO  BLANKS', 40), row('2025-05-04', 'UNKNOWN TWO BLANKS', 40)]
+    b_ws['ask_all'] = True
+    ws_probes = [{'desc': 'PMTS  AMZN ZQ7', 'amount': 25.0}, {'desc': 'WIRE   OUT ZQ7', 'amount': 500.0},
+                 {'desc': 'ACH\tDEBIT ZQ7', 'amount': 40.0}, {'desc': 'PMTS AMZN ZQ7', 'amount': 25.0}]
+    b_wscsv = bud([], kind='csv', csv=[['PMTS  AMZN', 'Amazon Payments', 'Shopping', 'Payments', ''], ['AMZN', 'Amazon', 'Shopping', 'Online', '']])
     b_case = bud(['ZED MART', 'COFFEE', 'Coffee'])     # merchants whose names differ only in letter case
     b_case['sources'][0]['rows'] += [row('2025-04-01', 'ZED MART', 200), row('2025-04-02', 'ZED MART', 40),
                                      row('2025-04-03', 'COFFEE ROASTERS', 30), row('2025-04-04', 'SQ *COFFEE HUT', 18)]
@@ -574,6 +591,8 @@ def corpus():
         (bud(['Ordered'], supp=[row('2025-02-07', 'Book', 100)]), [{'desc': 'AMZN MKTP US ZQ7', 'amount': 25.0}]),   # supplemental rows + data
         (b_data, [{'desc': 'AMZN MKTP 4411 ZQ7', 'amount': 25.0}]),                                          # supplemental data only
         (b_case, [{'desc': 'ZED MART ZQ7', 'amount': 50.0}]),
+        (b_ws, ws_probes),
+        (b_wscsv, [{'desc': 'PMTS  AMZN ZQ7', 'amount': 25.0}, {'desc': 'PMTS AMZN ZQ7', 'amount': 25.0}]),
         # first_match ignores `priority:` — file order decides, for up and for explain alike
         (bud(['Mystery Low', 'Prio']), [{'desc': 'MYSTERY SHOP ZQ7', 'amount': 150.0}]),
         (bud(['Netflix', 'Netflix Premium', 'Prio', 'Mystery Low']), [{'desc': 'MYSTERY SHOP ZQ7', 'amount': 15.0},
